@@ -107,13 +107,14 @@ WaitOn(t) ==
      /\ regs[Top(t).b].kind \in LazyKinds
      /\ cell[Top(t).b].st = "running" /\ cell[Top(t).b].v # t
     THEN cell[Top(t).b].v ELSE t
-RECURSIVE Chain(_, _)
-Chain(t, n) == IF n = 0 THEN t ELSE Chain(WaitOn(t), n - 1)
-\* t is part of a cycle of threads each waiting for a singleton the next one is building:
-\* a dependency cycle spread over several threads.
-InWaitCycle(t) == WaitOn(t) # t /\ \E n \in 2..Cardinality(DOMAIN stk) : Chain(t, n) = t
-\* t waits (transitively) for such a cycle: it can never return.
-Stuck(t) == \E n \in 0..Cardinality(DOMAIN stk) : InWaitCycle(Chain(t, n))
+\* The waits-for relation is a partial function on threads, so: a thread in a set of waiting
+\* threads that is closed under WaitOn can never return; it is ON a cycle iff, in addition,
+\* every member of the set is waited for by a member (WaitOn permutes the set).
+\* A cycle of waiting threads is a dependency cycle spread over several threads.
+Waiting == {x \in DOMAIN stk : WaitOn(x) # x}
+ClosedW(C) == \A x \in C : WaitOn(x) \in C
+InWaitCycle(t) == \E C \in SUBSET Waiting : /\ t \in C /\ ClosedW(C)
+                                              /\ \A x \in C : \E y \in C : WaitOn(y) = x
 
 (***************************************************************************)
 (* Registration:  call, silent RegLin (takes effect), return.              *)
